@@ -325,7 +325,7 @@ pre_case = st.fixed_dictionaries({"d": gen.scalar_d(), "n": st.sampled_from([1, 
                                   "script": st.lists(_k_spec(), max_size=8)})
 
 
-@P.sub("precomp", pre_case, quick=500, thorough=30000)
+@P.sub("precomp", pre_case, quick=400, thorough=12000)
 def precomp(case, ctx):
     """the pre-computed-nonce encryptor: every slot of sm2_encrypt_pre_compute holds (k, [k]G) with k the accepted entropy draw, and
     sm2_do_encrypt_ex with each slot produces the standard ciphertext for that nonce, which every decryptor opens"""
